@@ -4,6 +4,21 @@ import json
 import os
 
 NOTES = {
+    'c09_9': '**not reported (open)**: needs a wallet holding a second network and address_index(i, network=...); the C09 histories '
+             'call address_index only on the default network. Found in the last minutes of the final session; the sub-space '
+             '(second network account x address_index/key_for_path/get_key with network=) is the next extension',
+    'c10_9': '**not reported (open)**: needs sign(keys=[k2, k3]) with a LIST of two handed-over master keys on a 3-of-n wallet; the C10 '
+             'ceremonies hand over one key per call. A first attempt at the event (master keys of two cosigners in one call) '
+             'raised deviations on the unchanged tree that could not be classified (defect or harness) in the time left, so it was '
+             'withdrawn rather than registered; next extension',
+    'c20_9': '**not reported (open)**: needs a transaction cached by a provider that leaves spent unknown (spent=None) before '
+             'isspent(); the C20 fixture providers always deliver a known spent state. Next extension: provider answers with '
+             'spent=None in the cache-history sub-space',
+    'c01_9': '**missed at first**: the C01 object histories never changed the serialised version alone (C02 did, in its tamper '
+             'alphabet); the event edit_version was added to the C01 history search, the digest must follow the bytes raw() writes',
+    'c07_9': '**missed at first**: every requested amount was an integer; the amount dimension got text and Value-object forms '
+             "(written from the integer with exact decimals, e.g. '0.29000000 TST'), incl. decimals whose float quotient lies just "
+             'below the integer',
     'c05': '**missed at first**: C05 accepted "unknown / no address" for non-standard witness programs in the reverse '
            'direction; it now demands the inverse law for every destination the library itself accepts',
     'c08': '**missed at first**: C08 got the events delete_funding / utxo_add_spent and funded start states',
